@@ -2,14 +2,19 @@
 import datetime
 import random
 
-from vlib import core
+from vlib import core, build
 from checks import convcommon as C
 
 PID = 'C14'
 
 
+def build_ts(variant='asan'):
+    return build.build('drv_ts', variant, ['drv_ts.cpp'])
+
+
 def prebuild():
     C.build_conv('ubsan')
+    build_ts()
 
 
 def run(tier):
@@ -18,7 +23,9 @@ def run(tier):
                     'instant of the day; thorough adds every second of selected days through denser value sweeps) + min/max/10^k/2^k neighbourhoods '
                     'and random 64-bit counts for 11 (rep,period) types of time_point and duration + time_t: text must equal an independent '
                     'proleptic-Gregorian rendering (400-year table built by a day walker, cross-checked with CPython datetime every run), '
-                    'parse(print(x)) == x, duration text evaluated by an independent evaluator, MsgPack binary timestamp form round trip. '
+                    'parse(print(x)) == x, duration text evaluated by an independent evaluator, MsgPack binary timestamp form round trip '
+                    '(conversion to seconds + nanoseconds, and the wire form: string and stream writer output decoded by an independent decoder of '
+                    'timestamp 32 / 64 / 96 and read back by the string and the stream reader). '
                     'distinct non-trivial = distinct (type,count) values',
                     ['CPython datetime is a correct proleptic Gregorian calendar for years 1..9999'])
     exe = C.build_conv('ubsan')
@@ -62,6 +69,15 @@ def run(tier):
     ck.cov['days_swept'] = sum(e.get('days', 0) for e in by.values())
     ck.cov['values_checked'] = sum(e.get('values', 0) for e in by.values())
     ck.cov['year_range_exhaustive'] = [ylo, yhi]
+    # 3. wire form: binary timestamps through the MessagePack timestamp extension (string and stream writer / reader) against an
+    #    independent decoder of the timestamp 32 / 64 / 96 formats
+    exe_ts = build_ts()
+    lines = ['op=c14wire id=w%d seed=%d n=%d' % (b, core.mix(seed, 'wire', b) % 2 ** 31, 20000 if q else 400000) for b in range(8 if q else 32)]
+    byw = C.run_sweeps(ck, exe_ts, lines, 'asan', driver='drv_ts')
+    ck.cov['wire_timestamps_checked'] = sum(e.get('values', 0) for e in byw.values())
+    ck.cov['wire_formats_seen'] = {k: sum(e.get(k, 0) for e in byw.values()) for k in ('ts32', 'ts64', 'ts96')}
+    if min(ck.cov['wire_formats_seen'].values()) == 0:
+        ck.harness_error('wire stage: a timestamp format was never produced: %s' % ck.cov['wire_formats_seen'])
     ck.exhaustive = False
     nv = ck.cov['values_checked']
     for i in range(0, min(nv, 200000)):
@@ -74,7 +90,7 @@ def run(tier):
 
 def replay(w):
     wit = w['witness']
-    exe = C.build_conv(wit.get('variant', 'ubsan'))
+    exe = build_ts(wit.get('variant', 'asan')) if wit.get('driver') == 'drv_ts' else C.build_conv(wit.get('variant', 'ubsan'))
     ev, err, rc, bad = core.run_driver(exe, [wit['case']], wit.get('variant', 'ubsan'))
     print(ev, err[-2000:])
     return 0
